@@ -321,7 +321,7 @@ pub static C14: SimpleProp = SimpleProp {
     id: "C14",
     level: "exploration",
     rule: "one evaluation = one history of 4-12 operations (or, 1 run in 24, of A, k x (reset, B), reset, A with k up to 1025 - 65537 in the thorough tier - reuse cycles) {decompress stream i (valid, bit-flipped, truncated, spliced, or cut short by an injected source error after k one-byte refills), reset(None), reset(Some(None)), reset(Some(Some(n))) with n = a stream's size, ±1, or 0 / 2^32 / 2^63 / 2^64-1} on a single raw::LzmaDecoder (any lc/lp/pb, dictionary 1..65536) or raw::Lzma2Decoder (streams with changing properties); after every reset the next decompress is compared (verdict, bytes, consumed count) with a freshly constructed decoder with the same parameters and the size last specified; non-trivial = at least one such comparison; distinct by scenario hash",
-    runs_quick: 60_000,
+    runs_quick: 120_000,
     runs_thorough: 6_000_000,
     both_profiles: false,
     assumptions: &[
